@@ -565,6 +565,12 @@ func (e *SpecEnv) call(x *SCall) Value {
 		case "contents!":
 			e.fail("contents only allowed in assigns")
 		}
+		// abstract function (per-receiver-type definitions)
+		if e.pkg.Contracts != nil {
+			if af, ok := e.pkg.Contracts.Abstract[id.Name]; ok {
+				return e.applyAbstract(af, e.pkg, x.Args)
+			}
+		}
 		// spec function
 		if sf := e.findSpecFunc(id.Name); sf != nil {
 			return e.applySpecFunc(sf.sf, sf.pkg, x.Args)
@@ -586,6 +592,9 @@ func (e *SpecEnv) call(x *SCall) Value {
 				if p := e.importedPkg(id.Name); p != nil && p.Contracts != nil {
 					if sf, ok := p.Contracts.SpecFuncs[sel.Sel]; ok {
 						return e.applySpecFunc(sf, p, x.Args)
+					}
+					if af, ok := p.Contracts.Abstract[sel.Sel]; ok {
+						return e.applyAbstract(af, p, x.Args)
 					}
 				}
 			}
@@ -978,4 +987,40 @@ func hashString(s string) uint32 {
 		h *= 16777619
 	}
 	return h
+}
+
+// applyAbstract: an abstract function is defined per concrete receiver type
+// (define clauses). When the static type of the first argument is such a
+// type the definition is expanded; when it is the interface, the application
+// is uninterpreted (clients reason through interface contracts only).
+func (e *SpecEnv) applyAbstract(af *AbstractFunc, pkg *Pkg, args []SExpr) Value {
+	if len(args) != len(af.Params) {
+		e.fail("abstract func %s: %d args, want %d", af.Name, len(args), len(af.Params))
+	}
+	vals := make([]Value, len(args))
+	for i := range args {
+		vals[i] = e.eval(args[i])
+	}
+	c := &SpecEnv{vc: e.vc, pkg: pkg, vars: map[string]Value{}, st: e.st, tparams: e.tparams}
+	rt := c.resolveType(af.Ret)
+	// static type of the first argument
+	key := types.TypeString(vals[0].Ty, func(p *types.Package) string { return "" })
+	key = strings.ReplaceAll(key, ".", "")
+	if def, ok := af.Defs[key]; ok {
+		return e.expandSpecFuncVals(def, pkg, vals)
+	}
+	if _, isI := vals[0].Ty.Underlying().(*types.Interface); !isI {
+		e.fail("abstract func %s has no definition for receiver type %s", af.Name, key)
+	}
+	var ts []Term
+	var sorts []string
+	for i, v := range vals {
+		pt := c.resolveType(af.Params[i].Type)
+		v = e.retypeTo(v, pt)
+		ts = append(ts, v.T)
+		sorts = append(sorts, v.T.Sort)
+	}
+	sym := "abs!" + sanitize(pkg.Types.Name()+"."+af.Name)
+	e.vc.declareFun(sym, sorts, e.vc.sortOf(rt))
+	return Value{T: app(e.vc.sortOf(rt), sym, ts...), Ty: rt}
 }
